@@ -64,7 +64,9 @@ func c07Units(tier string, seed int64) []Unit {
 		func() *LazyProgram { return progTwoSites() },
 		func() *LazyProgram { return rejectionProgs()[0] },
 	}
-	alpha := func(string) []Beh { return []Beh{BPass, BSkip, BFatalA, BPanicStr, BErrorf, BCleanupErrorfSkip, BCleanupErrorf} }
+	alpha := func(string) []Beh {
+		return []Beh{BPass, BSkip, BFatalA, BPanicStr, BErrorf, BCleanupErrorfSkip, BCleanupErrorf}
+	}
 	for pi, mk := range progs {
 		for _, n := range []int{1, 5, 20} {
 			for _, sd := range seeds {
